@@ -65,7 +65,7 @@ pub fn vector_set(vm: &mut Vm) -> Result<VCell, Error> {
     let value = vm.stack.pop()?.clone();
     let idx = pop_index(vm, "vector-set!")?;
     let vector = pop_vector(vm)?;
-    if idx > vector.len() - 1 {
+    if idx >= vector.len() {
         return Err(InvalidVectorIndex(idx, vector.len()));
     }
     vector.put(idx, value);
@@ -129,7 +129,8 @@ pub fn vector_copy(vm: &mut Vm) -> Result<VCell, Error> {
     let vector = vector.as_ref();
 
     match (start, end) {
-        (Some(start), _) if start > vector.len() - 1 => {
+        // start may equal the length: the copy is then empty
+        (Some(start), _) if start > vector.len() => {
             return Err(InvalidVectorIndex(start, vector.len()));
         }
         (_, Some(end)) if end > vector.len() => {
